@@ -830,6 +830,39 @@ fn gen_end_cause(r: &mut Prng) -> FaultKind {
         _ => FaultKind::DropMux { ep: r.below(2) },
     }
 }
+/// the failing endpoint's own application does not accept streams: its accept backlog is full and
+/// further Connects are in flight when its transport fails; its other pending calls must still resolve
+fn gen_c08_backlog(r: &mut Prng, _i: u64, _t: Tier) -> Plan {
+    let mut p = base_plan(r);
+    let x = r.below(2);
+    p.accept[x] = false;
+    p.eps[x].stream_buf = 1 + r.below(2);
+    p.link.latency_ms = 0;
+    for _ in 0..(2 + r.below(4)) {
+        let mut s = gen_stream(r, &CHAOS);
+        s.opener = 1 - x;
+        s.delay = r.below(4);
+        p.streams.push(s);
+    }
+    // the failing endpoint's own stream with a parked reader
+    let mut own = gen_stream(r, &CHAOS);
+    own.opener = x;
+    own.delay = 0;
+    own.sides[0].r = vec![ROp::ReadEof { buf: 8 }];
+    own.sides[0].hold = true;
+    own.sides[1].hold = true;
+    p.streams.push(own);
+    p.dg_rx.push(DgRx { ep: x, pace: vec![0], take: None });
+    let kind = match r.below(4) {
+        0 => FaultKind::Cut { from: x, sink_err: true, src: 0, drop_inflight: false },
+        1 => FaultKind::Cut { from: x, sink_err: true, src: 3, drop_inflight: false },
+        2 => FaultKind::Garbage { to: x, kind: r.below(6) as u8 },
+        _ => FaultKind::Cut { from: 1 - x, sink_err: false, src: 1, drop_inflight: false },
+    };
+    let at = r.below(50) as u64;
+    p.faults.push(Fault { at, kind });
+    p
+}
 fn gen_c08(r: &mut Prng, _i: u64, _t: Tier) -> Plan {
     let mut p = gen_c08_workload(r);
     let kind = gen_end_cause(r);
@@ -950,6 +983,7 @@ pub fn c08() -> Check {
         vec![
             fam("chaos", 300_000, 3_000_000, gen_c08, OracleCfg::default(), Some(x_c08), nt_c08, "random close/abort workload on 1-3 streams with pending accept / get_datagram / request_bind / next_bind_request / open / parked writers and readers; at a seeded scheduling round one end cause fires: forged peer Close, cut of one direction (source error / EOF / silent, sink failing or not, in-flight dropped or delivered), both directions cut, invalid frame (6 kinds), or the local Multiplexor handle dropped. Judged per endpoint whose connection has ended: its task returned and no call is pending at quiescence; after a local drop on a healthy link every frame whose producing call returned before the drop is on the wire before Close, per producer in order. Non-trivial: the end cause fired after >20 steps and reached an endpoint."),
             Box::new(sweep),
+            fam("backlog", 100_000, 2_000_000, gen_c08_backlog, OracleCfg::default(), Some(x_c08), nt_c08, "the endpoint whose transport fails (sink error with a live or silent source, invalid frame, source error) runs no acceptor: its accept backlog (1-2 slots) is full and further Connect frames of the peer are in flight or buffered when the failure hits; its parked reader, get_datagram and open calls must still resolve and its task must return."),
         ],
         vec!["end-with-pending-operations", "end-while-writer-parked", "end-while-open-pending", "end-while-bind-pending", "drop-with-queued-frames", "fault:cut", "fault:peer-close", "fault:garbage", "fault:drop-mux"],
     )
